@@ -1866,3 +1866,14 @@ impl<'a> CompiledProjection<'a> {
         self.expressions.len()
     }
 }
+
+/// Verification hooks (cargo feature `kahflane_turdb_verif`, off by default): the private
+/// LIKE matcher of `CompiledPredicate`, which does not depend on the predicate's state.
+#[cfg(feature = "kahflane_turdb_verif")]
+pub mod verif_hooks {
+    pub fn like_match(text: &str, pattern: &str, case_insensitive: bool) -> bool {
+        let expr = crate::sql::ast::Expr::Literal(crate::sql::ast::Literal::Null);
+        let predicate = super::CompiledPredicate::new(&expr, Vec::new());
+        predicate.like_match(text, pattern, case_insensitive)
+    }
+}
